@@ -227,8 +227,11 @@ def main(argv=None):
         if hok and mok and not args.replay:
             rng2 = random.Random(seed * 7919 + 17)
             more = []
-            for _ in range(2):
-                more += P.generate(rng2, tier)
+            for rnd in range(2):
+                batch = P.generate(rng2, tier)
+                for c in batch:
+                    c[1] = 'x%d-%s' % (rnd, c[1])      # ids must stay unique across batches
+                more += batch
             f2, s2, _, _ = evaluate(P, more, tier)
             stats['extended_search_cases'] = len(more)
             for f in f2:
